@@ -186,6 +186,13 @@ benign("stop-notifies-listener-last", "stopRecording notifies the listener after
        (MP, "\tif mp.listener != nil {\n\t\tmp.listener.RecordingEnded()\n\t}\n\n\terr := mp.recorder.StopRecording()\n\n\tmp.framesWritten = 0\n\tmp.writeUntil = 0\n\tmp.isRecording = false\n\tmp.triggered = 0\n\t// if it starts recording again very quickly it won't write the same frames again\n\tmp.frameLoop.SetAsOldest()\n\n\treturn err",
         "\terr := mp.recorder.StopRecording()\n\n\tmp.framesWritten = 0\n\tmp.writeUntil = 0\n\tmp.isRecording = false\n\tmp.triggered = 0\n\t// if it starts recording again very quickly it won't write the same frames again\n\tmp.frameLoop.SetAsOldest()\n\tif mp.listener != nil {\n\t\tmp.listener.RecordingEnded()\n\t}\n\n\treturn err", False))
 
+benign("window-wrapper-fresh", "the processor keeps its window in a small wrapper struct whose Active() asks the configured window every time",
+       (MP, "\t\twindow:            recorderConf.Window,", "\t\twindow:            recordingWindow{Window: recorderConf.Window},", False),
+       (MP, "\twindow            window.Window\n", "\twindow            recordingWindow\n", False),
+       (MP, "type RecordingListener interface {", "type recordingWindow struct {\n\twindow.Window\n\tasked int\n}\n\nfunc (rw *recordingWindow) Active() bool {\n\trw.asked++\n\treturn rw.Window.Active()\n}\n\ntype RecordingListener interface {", False))
+benign("set-floor-two-branches", "setFloor copies on both branches of a debug test",
+       (MO, "\tout.Copy(f)\n\treturn out\n", "\tif d.debug != nil {\n\t\td.debug.update(\"floor\", 1)\n\t\tout.Copy(f)\n\t\treturn out\n\t}\n\tout.Copy(f)\n\treturn out\n", False))
+
 here = os.path.dirname(os.path.abspath(__file__))
 for f in os.listdir(os.path.join(here, "benign")):
     os.unlink(os.path.join(here, "benign", f))
